@@ -231,6 +231,12 @@ pub fn run(tier: &str, rec: &Recorder) -> RunOutput {
         let modes = modes_for(&f);
         for_each_graph(&f, seed, deadline, &stats, |b, c| check_graph(b, rec, c, &modes, true));
     }
+    {
+        // size-gated (parallel) code path on graphs above the 20-node threshold, polynomial oracles
+        let mut c = Counters::default();
+        crate::large::c04_large(tier, rec, &mut c);
+        stats.counters.lock().unwrap().merge(&c);
+    }
     fill_e2_coverage(&mut out, &stats);
     out.set("traces_validated_against_impl", out.get("transitions"));
     out.set("distinct_nontrivial", out.get("results_with_path_ties"));
